@@ -5,6 +5,13 @@ Real code: generate + Model.simplify under each of the 8 configurations; the fou
 Functions of every configuration are expanded to SX, translated to z3 and proved equal to those
 of configuration 0 for ALL inputs; variable lists / order / python types / non-symbolic attribute
 values are compared concretely.
+
+Second dimension (edit scripts): a Model is a mutable public object, so "the same model handled by
+the same sequence of calls" must keep the same four functions under every configuration as well.
+For selected models every configuration is driven through the same script of reads of the output
+functions and edits through the public Model API (variable attributes, parameter values,
+equations, initial equations, delay arguments); at every read point the functions are again
+proved equal to configuration 0's by z3.
 """
 import itertools
 import sys
@@ -82,24 +89,209 @@ def build(text, cls, cfg):
     return m
 
 
+# ---- edit scripts: reads of the four functions interleaved with edits of the public Model ------
+FN = ["dae_residual", "initial_residual", "variable_metadata", "delay_arguments"]
+
+
+def _first_var(m):
+    return (m.states + m.alg_states)[0]
+
+
+def _param(m):
+    if not m.parameters:
+        raise Inapplicable("no parameter")
+    return m.parameters[0]
+
+
+class Inapplicable(Exception):
+    pass
+
+
+def op_set_attrs(m, cfg):
+    v = _first_var(m)
+    v.max, v.min, v.nominal, v.start = 1.5, -2.5, 10.0, 0.25
+
+
+def op_set_param(m, cfg):
+    _param(m).value = 0.7
+
+
+def op_attr_affine(m, cfg):
+    p, v = _param(m).symbol, _first_var(m)
+    v.max = 2 * p[0] + 1
+    v.nominal = 3 * p[0]
+
+
+def op_attr_nonaffine(m, cfg):
+    p, v = _param(m).symbol, (m.states + m.alg_states)[-1]
+    v.min = -(p[0] * p[0])
+    v.start = ca.fmax(p[0], 1.0)
+
+
+def op_scale_eq(m, cfg):
+    if not m.equations:
+        raise Inapplicable("no equation")
+    m.equations[0] = 2.0 * m.equations[0]
+
+
+def op_append_eq(m, cfg):
+    s = _first_var(m).symbol
+    m.equations.append(s[0] - 0.5 * m.time)
+
+
+def op_delete_eq(m, cfg):
+    if len(m.equations) < 2:
+        raise Inapplicable("fewer than two equations")
+    del m.equations[-1]
+
+
+def op_append_init(m, cfg):
+    s = (m.states + m.alg_states)[-1].symbol
+    m.initial_equations.append(s[s.numel() - 1] - 0.5)
+
+
+def op_replace_init(m, cfg):
+    if not m.initial_equations:
+        raise Inapplicable("no initial equation")
+    m.initial_equations[0] = m.initial_equations[0] + m.time
+
+
+def op_delay(m, cfg):
+    if not m.delay_arguments:
+        raise Inapplicable("no delay")
+    from pymoca.backends.casadi.model import DelayArgument
+    a = m.delay_arguments[0]
+    m.delay_arguments[0] = DelayArgument(2 * a.expr, a.duration)
+
+
+def op_simplify(m, cfg):
+    m.simplify(cfg)
+
+
+OPS = {"attrs": op_set_attrs, "param": op_set_param, "attr-affine": op_attr_affine, "attr-nonaffine": op_attr_nonaffine,
+       "scale-eq": op_scale_eq, "append-eq": op_append_eq, "delete-eq": op_delete_eq, "append-init": op_append_init,
+       "replace-init": op_replace_init, "delay": op_delay, "simplify": op_simplify}
+# "read" reads all four functions, "read:<fn>" only one of them (the others are first read after the edit)
+SCRIPTS = {
+    "attrs": ["read", "attrs", "read"],
+    "attrs-unread": ["attrs", "read"],
+    "param": ["read", "param", "read"],
+    "attr-affine": ["read", "attr-affine", "read"],
+    "attr-nonaffine": ["read", "attr-nonaffine", "read"],
+    "scale-eq": ["read", "scale-eq", "read"],
+    "append-eq": ["read", "append-eq", "read"],
+    "delete-eq": ["read", "delete-eq", "read"],
+    "append-init": ["read", "append-init", "read"],
+    "replace-init": ["read", "replace-init", "read"],
+    "delay": ["read", "delay", "read"],
+    "partial-read": ["read:variable_metadata", "scale-eq", "append-init", "read", "attrs", "read"],
+    "two-rounds": ["read", "attrs", "param", "read", "scale-eq", "append-init", "read"],
+}
+SCRIPTS_THOROUGH = {
+    "resimplify": ["read", "attrs", "scale-eq", "simplify", "read"],
+    "edit-all": ["read", "attrs", "attr-nonaffine", "scale-eq", "append-eq", "append-init", "read", "delete-eq", "read"],
+}
+EDIT_MODELS_QUICK = ("attr-fun", "delay", "init", "for-1d[3]", "fun-if", "ifeq-else", "fun-call[elem-and-loop]",
+                     "for-sub[2 * i|1:3|rhs|slack2]")
+EDIT_MODELS_THOROUGH = ("init-if", "mat-ops", "fun-call[elem-initial]", "fun-loop[fwd|1:3|multi]")
+
+
+def run_script(text, cls, cfg, steps):
+    """Drive one fresh model through the script; returns [(describe, {fname: Function})] per read."""
+    m = build(text, cls, cfg)
+    reads = []
+    for st in steps:
+        if st == "read":
+            reads.append((describe(m), {f: getattr(m, f + "_function") for f in FN}))
+        elif st.startswith("read:"):
+            f = st.split(":", 1)[1]
+            reads.append((None, {f: getattr(m, f + "_function")}))
+        else:
+            OPS[st](m, cfg)
+    return m, reads
+
+
+def work_edit(item):
+    cid, text, cls, sname, steps = item
+    col = Collector()
+    try:
+        try:
+            base, reads0 = run_script(text, cls, CONFIGS[0], steps)
+            names = modelio.model_in_names(base)
+        except Inapplicable:
+            return col
+        except Exception as e:
+            col.append("unsupported_edit_scripts", f"{cid}:edit[{sname}]: {type(e).__name__}: {str(e)[:80]}")
+            return col
+        for cfg in CONFIGS[1:]:
+            tag = "u%di%de%d" % (cfg["unroll_loops"], cfg["inline_functions"], cfg["expand_mx"])
+            case = f"{cid}:edit[{sname}]:{tag}"
+            extra = {"options": cfg, "script": steps}
+            try:
+                m, reads = run_script(text, cls, cfg, steps)
+            except Exception as e:
+                col.violation(case + ":raises", f"script {steps} raises {type(e).__name__}: {str(e)[:100]} under {cfg} but not under the "
+                              "reference configuration", {"model_text": text, **extra})
+                continue
+            for r, ((d0, f0s), (d1, f1s)) in enumerate(zip(reads0, reads)):
+                if d0 != d1:
+                    diff = [k for k in d0 if d0[k] != d1.get(k)]
+                    col.violation(f"{case}:read{r}:variables", f"variable lists/metadata differ in {diff} at read {r} of script {steps}",
+                                  {"model_text": text, **extra})
+                    continue
+                for fname, f0 in f0s.items():
+                    nm = [names[6]] if fname == "variable_metadata" else names
+                    try:
+                        n = pipeline.compare_functions(col, f0, f1s[fname], nm, f"{case}:read{r}", text, fname, extra=extra)
+                        col.bump("function_elements_compared", n)
+                    except EncodingGap as g:
+                        col.append("encoding_gaps", f"{case}:read{r}:{fname}: {g}")
+            col.bump("edit_script_configurations", 1)
+        col.bump("edit_script_runs", 1)
+        col.sample({"model": cid, "edit_script": steps, "configs": 8}, limit=2)
+    except Exception:
+        col.harness_error(f"{cid}:edit[{sname}]: " + traceback.format_exc()[-1500:])
+    return col
+
+
+def edit_items(items, tier):
+    scripts = dict(SCRIPTS)
+    chosen = [m for m in items if m[0] in EDIT_MODELS_QUICK]
+    if tier == "thorough":
+        scripts.update(SCRIPTS_THOROUGH)
+        rest = [m for m in items if m[0] not in EDIT_MODELS_QUICK]
+        chosen += [m for m in rest if m[0].startswith("repo:") or m[0] in EDIT_MODELS_THOROUGH] + rest[::25]
+    seen, out = set(), []
+    for cid, text, cls in chosen:
+        if cid in seen:
+            continue
+        seen.add(cid)
+        out += [(cid, text, cls, sname, steps) for sname, steps in scripts.items()]
+    return out
+
+
 def work(item):
+    if len(item) == 5:
+        return work_edit(item)
     cid, text, cls = item
     col = Collector()
     try:
         try:
             base = build(text, cls, CONFIGS[0])
+            d0 = describe(base)
+            names = modelio.model_in_names(base)
+            pnames = [names[6]]
+            fns0 = {
+                "dae_residual": (base.dae_residual_function, names),
+                "initial_residual": (base.initial_residual_function, names),
+                "variable_metadata": (base.variable_metadata_function, pnames),
+                "delay_arguments": (base.delay_arguments_function, names),
+            }
         except Exception as e:
+            # not compilable under the reference configuration (C11 reports these): outside C12
             col.append("unsupported_models", f"{cid}: {type(e).__name__}")
+            col.bump("n_unsupported_models")
             return col
-        d0 = describe(base)
-        names = modelio.model_in_names(base)
-        pnames = [names[6]]
-        fns0 = {
-            "dae_residual": (base.dae_residual_function, names),
-            "initial_residual": (base.initial_residual_function, names),
-            "variable_metadata": (base.variable_metadata_function, pnames),
-            "delay_arguments": (base.delay_arguments_function, names),
-        }
         for cfg in CONFIGS[1:]:
             tag = "u%di%de%d" % (cfg["unroll_loops"], cfg["inline_functions"], cfg["expand_mx"])
             case = f"{cid}:{tag}"
@@ -135,6 +327,9 @@ def main():
     rep = Report(PROP, args.tier, "translation_validation", args.seed)
     items = [m for m in families.structured_models(args.tier)
              if m[0].startswith(("for-", "fun-", "ifeq", "init", "vec-", "mat-", "der-"))]
+    if args.tier == "quick":
+        # the loop-subscript family is crossed with two loop ranges for C11; C12's quick tier keeps one of them
+        items = [m for m in items if not (m[0].startswith("for-sub[") and "|1:3|" not in m[0])]
     items += [("delay", DELAY, "M"), ("attr-fun", ATTR, "M")]
     for name, cls in families.REPO_MODELS:
         if name in ("ForLoop", "FunctionCall", "DoubleFunctionCall", "IfElse", "Spring", "Aircraft", "Estimator", "ArrayExpressions", "MatrixExpressions"):
@@ -142,17 +337,27 @@ def main():
     if args.tier == "thorough":
         ex = families.scalar_exprs("quick")
         items += [(f"scalar{i}", families.batch_model(ex[i:i + 12]), "M") for i in range(0, len(ex), 12)]
-    for col in run_parallel(work, items, args.jobs):
+    eitems = edit_items(items, args.tier)
+    for col in run_parallel(work, items + eitems, args.jobs):
         rep.merge(col)
     cov = rep.coverage
+    cov["edit_script_items"] = len(eitems)
     cov["disagreements_checked"] = rep.queries.get("sat", 0)
     cov["functions_encoded"] = ["casadi.generator.generate + Model.simplify under 8 option sets",
                                 "Model.dae_residual_function, initial_residual_function, variable_metadata_function, delay_arguments_function (SX DAG -> z3)"]
-    cov["bounds"] = "enumerated models with loops (<=3 iterations), function calls, if-equations, delays; all 8 configurations; all inputs unbounded reals"
+    cov["bounds"] = ("enumerated models with loops (<=3 iterations; thorough <=4 and stepped ranges) incl. scaled/reversed/non-affine loop subscripts "
+                     "on vectors, fixed rows/columns and row slices of matrices, function for-statements with mutually dependent statements, "
+                     "the same function called at several places on different elements/slices/rows/components (also in initial equations, "
+                     "if-branches, next to a loop), if-equations, delays; all 8 configurations; all inputs unbounded reals. "
+                     f"Edit scripts: {len(SCRIPTS) + (len(SCRIPTS_THOROUGH) if args.tier == 'thorough' else 0)} read/edit/read sequences over the public Model API "
+                     f"(ops {sorted(OPS)}) on {len({e[0] for e in eitems})} models, every configuration driven through the same script and "
+                     "compared with configuration 0 at every read point")
     rep.assumptions += ["CasADi Function.expand() is trusted (expand_mx itself calls it)", "real arithmetic; elementary functions uninterpreted; divisors non-zero",
                         "NaN/inf attribute defaults are compared as opaque constants"]
     if cov.get("configurations", 0) == 0:
         rep.harness_error("no configuration compared")
+    if cov.get("edit_script_configurations", 0) == 0:
+        rep.harness_error("no edit script compared")
     return rep.finish()
 
 
